@@ -58,6 +58,9 @@ REAL_STUB = {
              "datatype callbacks zcsim.simdt.*"],
 }
 
+WRAPPER = "%s.zz-wrapper"       # URL of a resource that includes the top
+
+
 OPEN_KINDS = ["open-enoent", "open-http-404", "open-timeout", "open-refused",
               "open-eacces", "open-http-500", "open-oserror"]
 READ_KINDS = ["read-eio", "read-truncated", "read-reset", "read-timeout",
@@ -72,6 +75,10 @@ def generate(rng, tier, index):
         sc = scenarios.config_scenario(rng)
     sc["prop"] = ID
     sc["rot"] = rng.randrange(1000)
+    # configuration scenarios: one ConfigLoader object serves the faulty load,
+    # the rerun and a load of a wrapper that %include-s the top resource
+    # (state a failed load leaves ON THE LOADER must not matter either)
+    sc["reuse_loader"] = sc["kind"] == "config" and rng.random() < 0.5
     return sc
 
 
@@ -109,6 +116,8 @@ class Ctx:
         faulty load gets a fresh one and the rerun (clause 4) shares it."""
         if self.plan["kind"] == "schema":
             self.loader = ZConfig.loader.SchemaLoader()
+        elif self.plan.get("reuse_loader"):
+            self.loader = ZConfig.loader.ConfigLoader(self.schema)
 
     def run(self, store, faults, name):
         """One load under *faults*; returns (outcome, closure problems)."""
@@ -116,7 +125,19 @@ class Ctx:
         w.store = store
         w.begin_op(name, faults)
         top, entry = p["top"], p["entry"]
-        if p["kind"] == "config":
+        if p["kind"] == "config" and self.loader is not None:
+            loader = self.loader
+            if name == "wrapper":
+                fn = lambda: loader.loadURL(WRAPPER % top)          # noqa
+            elif entry == "url":
+                fn = lambda: loader.loadURL(top)                    # noqa
+            elif entry == "path":
+                fn = lambda: loader.loadURL(_path_of(top))          # noqa
+            else:
+                fn = lambda: loader.loadFile(                       # noqa
+                    io.StringIO(store.get(top, "")), top)
+            o = ops.config_outcome(fn)
+        elif p["kind"] == "config":
             schema = self.schema
             if entry == "url":
                 fn = lambda: ZConfig.loadConfig(schema, top)       # noqa
@@ -168,6 +189,8 @@ def base_store(plan):
     else:
         st = dict(plan["store"])
     st.update(plan["pkgfiles"])
+    if plan["kind"] == "config":
+        st[WRAPPER % plan["top"]] = "%include " + plan["top"] + "\n"
     return st
 
 
@@ -372,6 +395,18 @@ def execute(plan):
                           pt, label)
             for clause, detail in problems2:
                 violation(clause, detail + " (in the rerun)", pt, label)
+            if plan.get("reuse_loader") and plan["kind"] == "config":
+                o3, problems3, _rec3 = ctx.run(store0, [], "wrapper")
+                out["evaluations"] += 1
+                if not same(o3, base):
+                    violation("rerun-differs",
+                              "after the failed load the same loader gives "
+                              "%s for a resource that merely %%include-s the "
+                              "top resource; baseline was %s"
+                              % (ops.brief(o3), ops.brief(base)), pt, label)
+                for clause, detail in problems3:
+                    violation(clause, detail + " (in the wrapper load)", pt,
+                              label)
             out["log"].append("%s -> %s ; rerun %s" % (
                 label, ops.brief(o), ops.brief(o2)))
     return out
